@@ -26,7 +26,7 @@ COQ_FILES = ['base/Num.v', 'model/M_C06_Vec.v', 'model/M_C06_CG.v', 'model/M_C01
 TRUSTED = ['Coq 8.16.1 kernel + vm_compute (no native_compute)',
            'hand model model/M_C01_TR.v (uses the C06 CG/dogleg model and the generated scalar kernels) tied only by the correspondence: event kinds/order, flags, counts exact; points within 1e-7 relative',
            'harness: duck-typed polynomial objectives mirrored in Gallina (Section Poly), recording callback / update_precond, float<->(mantissa,exponent) exchange',
-           'near-tie rule: a mismatch counts as unstable only if the IMPLEMENTATION itself changes its discrete trace / result when the arguments of its oracles are perturbed by <= 2 ulp (4 trials)',
+           'near-tie rule: a mismatch counts as unstable only if (a) the IMPLEMENTATION itself changes its discrete trace / result when the arguments of its oracles are perturbed by <= 2 ulp (4 trials), or (b) the run reached objective differences between reported iterates of <= 64 ulp (rho is then cancellation noise)',
            'theorems are over exact reals (zero denominators treated as +0); binary64 rounding is covered only by the correspondence']
 ASSUMPTIONS = ['none on the oracles (value, gradient, hessian_vec, preconditioner are arbitrary functions)', '0 <= eta1 for the descent clause; use_incremental_objective=False for the descent clause',
                '0 < t1 < 1, 0 < min_tr_size, eta1 <= eta2 for inner-loop termination', 'exact real arithmetic in theorems']
@@ -117,10 +117,11 @@ class PolyObjective:
         return self.jnp.maximum(self.jnp.abs(self.jnp.diag(self.A) + self._extra(xp)), 0.25)
 
     def apply_precond(self, v):
-        return v if self.pk == 0 else v / self._pdiag(self.xp if self.pk == 1 else self.x0)
+        return v if self.pk == 0 else v / self._pdiag(self.xp if self.pk in (1, 3) else self.x0)
 
     def multiply_by_approx_hessian(self, v):
-        return v if self.pk == 0 else v * self._pdiag(self.xp if self.pk == 1 else self.x0)
+        # pk == 3: deliberately NOT the inverse of apply_precond (the theorems hold for arbitrary oracles)
+        return v if self.pk in (0, 3) else v * self._pdiag(self.xp if self.pk == 1 else self.x0)
 
     def update_precond(self, x):
         self.log.append(('pc', [float(t) for t in x]))
@@ -131,8 +132,8 @@ def dy(r, lo, hi, q=4):
     return r.randrange(lo * q, hi * q + 1) / q
 
 
-def gen_cases(ctx, count):
-    r = ctx.rng('poly')
+def gen_cases(ctx, count, stream='poly'):
+    r = ctx.rng(stream)
     out = []
     for _ in range(count):
         n = r.randrange(1, 7)
@@ -172,6 +173,24 @@ def gen_cases(ctx, count):
     return out
 
 
+def directed_cases(ctx, count):
+    """stream that reaches modelObjective > 0 (the re-signing of rho): non-convex objectives, preconditioned inner product,
+    stale / mismatched preconditioners and a NON-SYMMETRIC inconsistent hessian_vec (admissible: the theorems hold for arbitrary oracles)"""
+    r = ctx.rng('directed')
+    out = []
+    for c in gen_cases(ctx, 4 * count, 'directed-base'):
+        if c['kind'] not in ('indefinite', 'wild', 'quartic') or len(out) >= count:
+            continue
+        n = c['n']
+        c['E'] = [[dy(r, -4, 4) for _ in range(n)] for _ in range(n)]
+        c['pk'] = r.choice([1, 2, 3, 3])
+        c['st'].update(use_preconditioned_inner_product_for_cg=True, use_incremental_objective=False, max_trust_iters=8,
+                       eta1=r.choice([1e-10, 0.0]), eta2=0.1)
+        c['kind'] = 'directed-' + c['kind']
+        out.append(c)
+    return out
+
+
 def exact_switch_cases():
     """F1's polynomial, a pure quadratic whose first step is exact, a zero-gradient start, a flat direction (modelObjective = 0)"""
     base = dict(t1=0.25, t2=1.75, eta1=1e-10, eta2=0.1, eta3=0.5, max_trust_iters=100, tol=1e-8, max_cg_iters=50, max_cumulative_cg_iters=1000,
@@ -200,8 +219,10 @@ def run_impl(case, mods, x0=None, noise=None):
     # the inner `while` is proved to terminate for admissible settings: a run that exceeds the limit is reported as a hang
     old = signal.signal(signal.SIGALRM, _alarm)
     signal.alarm(SOLVE_LIMIT_S)
+    buf = io.StringIO()
     try:
-        x, flag = quiet(ES.trust_region_minimize, obj, obj.x0, st, callback=cb)
+        with contextlib.redirect_stdout(buf):
+            x, flag = ES.trust_region_minimize(obj, obj.x0, st, callback=cb)
     except Timeout:
         return dict(x=[float(t) for t in obj.x0], flag=False, log=obj.log, obj=obj, settings=st, hang=True)
     except Exception as ex:          # anything the solver raises is a failure of the property, not of the harness
@@ -209,7 +230,20 @@ def run_impl(case, mods, x0=None, noise=None):
     finally:
         signal.alarm(0)
         signal.signal(signal.SIGALRM, old)
-    return dict(x=[float(t) for t in x], flag=bool(flag), log=obj.log, obj=obj, settings=st)
+    return dict(x=[float(t) for t in x], flag=bool(flag), log=obj.log, obj=obj, settings=st, text=buf.getvalue())
+
+
+# decision branches of trust_region_minimize, recognised by the messages the implementation prints when it takes them
+BRANCH_MARKS = {'resign_positive_model_objective': 'Found a positive model objective increase',
+                'negative_curvature_cauchy': 'negative curvature unpreconditioned cauchy point direction found',
+                'cauchy_point_outside_region': 'unpreconditioned gradient cauchy point outside trust region',
+                'dogleg_cp_outside_newton': 'cp outside newton',
+                'too_small_retry': 'The trust region is too small, updating precond',
+                'too_small_exit': 'The trust region is still too small',
+                'max_iters_exit': 'Reached the maximum number of trust region iterations'}
+# every decision branch must be reached at least this often in the quick tier (measured rates are 5-40x higher)
+BRANCH_MIN_QUICK = {'resign_positive_model_objective': 3, 'negative_curvature_cauchy': 5, 'cauchy_point_outside_region': 5, 'dogleg_cp_outside_newton': 5,
+                    'too_small_retry': 5, 'too_small_exit': 2, 'max_iters_exit': 5, 'converged_exit': 5, 'initial_converged_exit': 1}
 
 
 def discrete(out):
@@ -296,7 +330,7 @@ def close_vec(a, b, rt=1e-7, at=1e-9):
 
 def correspondence(ctx, model_ok):
     mods = _mods()
-    cases = exact_switch_cases() + gen_cases(ctx, ctx.n(150, 1500))
+    cases = exact_switch_cases() + gen_cases(ctx, ctx.n(150, 1500)) + directed_cases(ctx, ctx.n(100, 600))
     outs = []
     hist = {}
     distinct = set()
@@ -320,6 +354,21 @@ def correspondence(ctx, model_ok):
             distinct.add(json.dumps([c['A'], c['E'], c['b'], c['c'], c['d'], c['pk'], c['x0'], c['st']], sort_keys=True))
         for tag, b in concl(c, o, mods):
             ctx.fail('conclusion', 'trust_region_minimize: ' + b, case=dict({k: v for k, v in c.items()}, tag=tag, impl=dict(x=o['x'], flag=o['flag'], log=o['log'])), concrete=True)
+    branch = {k: 0 for k in BRANCH_MARKS}
+    branch.update(converged_exit=0, initial_converged_exit=0, accepted_steps=0, runs=len(outs))
+    for o in outs:
+        t = o.get('text', '')
+        for k, mark in BRANCH_MARKS.items():
+            branch[k] += 1 if mark in t else 0
+        ncb = sum(1 for k, _ in o['log'] if k == 'cb')
+        branch['converged_exit'] += 1 if (o['flag'] and 'Initial objective' in t and ncb >= 1 and len(o['log']) > 1) else 0
+        branch['initial_converged_exit'] += 1 if (o['flag'] and len(o['log']) == 1) else 0
+        branch['accepted_steps'] += max(0, ncb - 1)
+    ctx.cov['branch_histogram'] = branch
+    if ctx.quick() and hangs < 2:
+        low = {k: (branch[k], m) for k, m in BRANCH_MIN_QUICK.items() if branch[k] < m}
+        if low:
+            ctx.fail('coverage', 'the generated runs no longer reach every decision branch of trust_region_minimize often enough (reached, required): %r' % low)
     ctx.count('evaluations', len(cases))
     ctx.count('distinct_nontrivial', len(distinct))
     ctx.count('conclusion_checks', len(cases))
@@ -353,9 +402,16 @@ def correspondence(ctx, model_ok):
                 ok, what = False, 'returned point differs: model %r, implementation %r' % (x, o['x'])
         if ok:
             continue
-        # near-tie rule: is the implementation itself unstable under rounding-level (<= 2 ulp) noise on the oracle arguments?
+        # near-tie rule (a): is the implementation itself unstable under rounding-level (<= 2 ulp) noise on the oracle arguments?
+        # (b): did the run reach objective differences at rounding level (|f(x_k+1) - f(x_k)| <= 64 ulp)?  Then rho = realImprove/modelImprove
+        #      is dominated by cancellation error and the accept / radius decisions after that point are not comparable.
         stable = True
-        for k in range(4):
+        jnp = mods[0]
+        vs = [float(o['obj'].value(jnp.array(p))) for k, p in o['log'] if k == 'cb']
+        for u, v in zip(vs, vs[1:]):
+            if abs(u - v) <= 64 * math.ulp(max(abs(u), abs(v), 1e-300)):
+                stable = False
+        for k in range(4 if stable else 0):
             o2 = run_impl(c, mods, None, onp.random.RandomState(ctx.seed % 100000 + 17 * k))
             if discrete(o2) != discrete(o) or not close_vec(o2['x'], o['x'], 1e-7, 1e-9):
                 stable = False
@@ -377,7 +433,7 @@ def driver_stream(ctx, mods):
     jnp, ES = mods
     from optimism import Objective
     r = ctx.rng('driver')
-    for _ in range(ctx.n(4, 30)):
+    for _ in range(ctx.n(6, 40)):
         n = r.randrange(1, 4)
         a = onp.array([[dy(r, -1, 1) for _ in range(n)] for _ in range(n)])
         a = a @ a.T + onp.eye(n)
@@ -399,7 +455,29 @@ def driver_stream(ctx, mods):
             ctx.notes.append('driver stream: %r' % ex)
             continue
         ctx.count('driver_stream_cases')
-        g = jnp.array(a) @ x - p_new[0] + 4 * qj * x * x * x
+        import jax
+        gfun = jax.grad(f, 0)                      # independent of objective.gradient (never through the objective's own caches)
+        # load-step history: change objective.p by direct assignment and re-solve from the SAME array object that was returned
+        try:
+            xa, oka = quiet(ES.trust_region_minimize, obj, x0, st)
+            p3 = Objective.Params(jnp.array([dy(r, -2, 2) + 3.0 for _ in range(n)]))
+            obj.p = p3
+            xb, okb = quiet(ES.trust_region_minimize, obj, xa, st)
+            gb = gfun(xb, p3)
+            ctx.count('history_stream_cases')
+            if okb and not float(gb @ gb) < st.tol ** 2:
+                ctx.fail('conclusion', 'after objective.p was reassigned, trust_region_minimize reported success but the gradient under the CURRENT parameters has norm %.6g >= tol' % math.sqrt(float(gb @ gb)),
+                         case=dict(kind='driver', A=a.tolist(), q=q, p_new=[float(t) for t in p3[0]], x0=[float(t) for t in xa], history='direct assignment'), concrete=True)
+            p4 = Objective.Params(jnp.array([dy(r, -2, 2) - 3.0 for _ in range(n)]))
+            xc, okc = quiet(ES.nonlinear_equation_solve, obj, xb, p4, st, useWarmStart=r.random() < 0.5)
+            gc = gfun(xc, p4)
+            if okc and not float(gc @ gc) < st.tol ** 2:
+                ctx.fail('conclusion', 'second load step: nonlinear_equation_solve reported success but the gradient under the requested parameters has norm %.6g >= tol' % math.sqrt(float(gc @ gc)),
+                         case=dict(kind='driver', A=a.tolist(), q=q, p_new=[float(t) for t in p4[0]], x0=[float(t) for t in xb], history='nonlinear_equation_solve'), concrete=True)
+        except Exception as ex:
+            ctx.count('driver_stream_errors')
+            ctx.notes.append('history stream: %r' % ex)
+        g = gfun(x, p_new)
         if ok and not float(g @ g) < st.tol ** 2:
             ctx.fail('conclusion', 'nonlinear_equation_solve reported success but the gradient under the requested parameters has norm %.6g >= tol' % math.sqrt(float(g @ g)),
                      case=dict(kind='driver', A=a.tolist(), q=q, p_old=[float(t) for t in p_old[0]], p_new=[float(t) for t in p_new[0]], x0=[float(t) for t in x0]), concrete=True)
